@@ -304,8 +304,32 @@ fn check_node<L: Language>(lang: &'static LangSig, m: &NM, r: &mut Rng, tabs: &m
         if n.applied_id_occurrences().len() != nchild {
             bad!("applied_id_occurrences", "{} children, model {}", n.applied_id_occurrences().len(), nchild);
         }
-        // position-wise partition: private occurrences = all minus public positions (by position, not by name)
-        // (a node in which one name is both public and private is legal input: shadowing)
+        // position-wise partition: every occurrence (identified by its address inside one clone of the node) is public or private,
+        // never both; the value lists agree with the model's scoping (a name may be public at one position and private at another:
+        // shadowing inside one node is legal input)
+        {
+            let mut c = n.clone();
+            let a: Vec<usize> = c.all_slot_occurrences_mut().into_iter().map(|x| x as *mut Slot as usize).collect();
+            let pu: Vec<usize> = c.public_slot_occurrences_mut().into_iter().map(|x| x as *mut Slot as usize).collect();
+            let pr: Vec<usize> = c.private_slot_occurrences_mut().into_iter().map(|x| x as *mut Slot as usize).collect();
+            let (sa, spu, spr): (BTreeSet<usize>, BTreeSet<usize>, BTreeSet<usize>) = (a.iter().copied().collect(), pu.iter().copied().collect(), pr.iter().copied().collect());
+            if sa.len() != a.len() || spu.len() != pu.len() || spr.len() != pr.len() {
+                bad!("occurrence-listed-twice", "an occurrence is listed twice: all {a:?}, public {pu:?}, private {pr:?}");
+            }
+            if !spu.is_disjoint(&spr) {
+                bad!("occurrence-public-and-private", "an occurrence is both public and private: public {:?}, private {:?}, all {:?}", n.public_slot_occurrences(), n.private_slot_occurrences(), n.all_slot_occurrences());
+            }
+            if spu.union(&spr).copied().collect::<BTreeSet<usize>>() != sa {
+                bad!("occurrence-neither-public-nor-private", "public and private occurrences do not cover all occurrences: public {:?}, private {:?}, all {:?}", n.public_slot_occurrences(), n.private_slot_occurrences(), n.all_slot_occurrences());
+            }
+            let private: Vec<Slot> = occ.iter().filter(|x| !x.1).map(|x| slot(x.0)).collect();
+            if n.private_slot_occurrences() != private {
+                bad!("private_slot_occurrences", "got {:?}, model {:?}", n.private_slot_occurrences(), private);
+            }
+            if c.private_slot_occurrences_mut().into_iter().map(|x| *x).collect::<Vec<_>>() != private {
+                bad!("private_slot_occurrences_mut", "mut and immut variants differ");
+            }
+        }
         // (b) shape canonical: shape <-> model key
         let (sh, bij) = n.weak_shape();
         let key = m.key(false);
